@@ -205,7 +205,7 @@ def verify_worker(job):
                 fv2 = verify.FnVerifier(c2, repo, tier=tier)
                 out.setdefault("sha", fv2.sha)
                 obs2 = [o for o in fv2.generate(budget_s=90 if tier == "quick" else 900) if o.kind in CONTRACT_KINDS]
-                fb["obligations"] = solve_all(prop, target, fv2, obs2, repo, tier, timeout_ms, False, budget_s=40 if tier == "quick" else 600)
+                fb["obligations"] = solve_all(prop, target, fv2, obs2, repo, tier, timeout_ms, False, budget_s=100 if tier == "quick" else 600)
             except EngineError as e:
                 fb["undecided"] = "%s: %s" % (type(e).__name__, e)
             except Exception as e:  # noqa  (solver resource errors in the stand-in are not verdicts)
